@@ -18,6 +18,12 @@ Processing a growing list front to back is breadth first: `bfs` below lists gene
 (the product, every fork completed with first elements), then the forks created by
 generation 0 in creation order, and so on.
 
+A root is `static` when `makeForkIdParts` knows its source: a literal array / map, or a
+split of a value whose elements ONE level below a literal all have the same length / key set
+(then it is a plain factor of the product); a source two levels below a literal is never
+static, uniform or not.  (`split []` / `split {}` do not parse: an empty static root does not
+occur in compiled programs.)
+
 Core Lean only.  Keys are `Martian.SortKeys.Key` (bytes as naturals) so that the C10 sorting
 lemmas apply.  The fork-id NAME model of C11 (`Martian/ForkName.lean`) has richer parts
 (`arr idx len static`, `key k keys static`); `Part.toName` maps a part of this model to it.
@@ -108,9 +114,36 @@ def bfs (inner : Inner) : Nat → List Fork → List Fork
 def forkOrder (roots : List Root) (inner : Inner) : List Fork :=
   bfs inner roots.length (product (roots.map Root.initParts))
 
+/-- The scans of one fork at RUN TIME (`Fork.expand` / `expandForkFromObj`).  Same shape, one
+difference: a part that turns out EMPTY disables the fork (`writeDisable`), and
+`Fork.expandForkPart` returns at once for a disabled fork — the scan stops there, later
+undetermined parts stay undetermined (the static phase marks them `empty` instead). -/
+def satRt (inner : Inner) : Nat → List Part → List Part → List Part × List Fork
+  | _, _, [] => ([], [])
+  | j, pre, p :: rest =>
+    if p != Part.undet then
+      let r := satRt inner (j + 1) (pre ++ [p]) rest
+      (p :: r.1, r.2)
+    else if pre.contains Part.empty then
+      (p :: rest, [])
+    else
+      match (inner j pre).parts with
+      | none =>
+        let r := satRt inner (j + 1) (pre ++ [Part.undet]) rest
+        (Part.undet :: r.1, r.2)
+      | some [] => (Part.empty :: rest, [])
+      | some (x :: xs) =>
+        let r := satRt inner (j + 1) (pre ++ [x]) rest
+        (x :: r.1, xs.map (fun y => pre ++ y :: rest) ++ r.2)
+
+def bfsRt (inner : Inner) : Nat → List Fork → List Fork
+  | 0, g => g.map fun f => (satRt inner 0 [] f).1
+  | n + 1, g =>
+    (g.map fun f => (satRt inner 0 [] f).1) ++ bfsRt inner n (g.flatMap fun f => (satRt inner 0 [] f).2)
+
 /-- `Node.expandForks` once every upstream value is there: the same processing of the list the
 static phase left, with the sources the run-time values give -/
-def expandRuntime (n : Nat) (rt : Inner) (forks : List Fork) : List Fork := bfs rt n forks
+def expandRuntime (n : Nat) (rt : Inner) (forks : List Fork) : List Fork := bfsRt rt n forks
 
 /-- number of undetermined parts -/
 def undetCount (f : Fork) : Nat := (f.filter (· == Part.undet)).length
